@@ -184,6 +184,24 @@ def check_2d(ctx):
     return [(by[i], cl) for i, cl in rej if by[i]["rel"]["kind"] == "recall"], len(rec.events)
 
 
+def check_clim_nat(ctx):
+    """climatology_test on observations without a time (NaT): such a point lies in no member's time span"""
+    import gen_qc
+    import qc_checks
+    g = gen_qc.Gen(ctx.seed + 79, size=8)
+    rec = qc_checks.Recorder()
+    for _ in range(ctx.pick(300, 1500)):
+        c = g.base("clim")
+        if len(c["t"]) != len(c["x"]) or not c["t"]:
+            continue
+        for i in g.r.sample(range(len(c["t"])), g.r.randint(1, min(2, len(c["t"])))):
+            c["t"][i] = gen_qc.NA
+        rec.session([({"kind": "base", "i": 0, "k": 0}, c)], qc_checks.CONCS[0])
+    rej = core.validate_parallel(ctx, [qc_checks.tlc_view(e) for e in rec.events], "Trace_Qc", "climnat")
+    by = {e["id"]: e for e in rec.events}
+    return [(by[i], cl) for i, cl in rej], len(rec.events)
+
+
 def check_global_attr_precedence(ctx):
     """documented in load_config_from_xarray: 'If a global attribute exists ... ignore any config at the variable level'.
     A Dataset carrying the configuration as global attribute AND unrelated per-variable QC attributes must load exactly
@@ -403,19 +421,56 @@ def check_dictops(ctx):
     return [(by[i], cl) for i, cl in rejects], len(events)
 
 
+# Growth findings on the unchanged tree (documented in DESIGN.md section 8; none of them is a listed property). A rejected
+# clause they explain is printed as GROWTH-FINDING; anything else is an EXTRA-REJECT and makes `./vcheck extra` exit 1.
+KNOWN_GROWTH = [
+    ("G1 check_timestamps([]) with a maximum interval raises UFuncTypeError",
+     lambda name, cl, e: cl == "check_timestamps" and e.get("exc") == "UFuncTypeError" and e.get("t") == []),
+    ("G2 attenuated_signal_test raises IndexError on 2-D input",
+     lambda name, cl, e: "2-D" in name and e.get("call", {}).get("fn") == "att" and e.get("obs", {}).get("exc") == "IndexError"),
+    ("G3 argo.pressure_increasing_test has no standard_name (misspelt keyword)",
+     lambda name, cl, e: "ApiMeta" in name and "pressure_increasing" in json.dumps(e)),
+    ("G4 Config.has(stream, function object) raises TypeError",
+     lambda name, cl, e: cl == "ops_has_callable" and all(h["fidx"] in (-1, h["idx"]) for h in e["obs"]["has"])
+     and any(h["fidx"] == -1 for h in e["obs"]["has"])),
+    ("G5 a Call whose parameters hold a list is not hashable",
+     lambda name, cl, e: cl == "ops_hashable"),
+    ("G6 climatology_test with a week-based member raises ValueError when an observation has no time (NaT)",
+     lambda name, cl, e: "NaT" in name and e["obs"]["exc"] == "ValueError"
+     and any(m["period"] in ("week", "weekofyear") for m in e["call"]["p"]["members"])),
+]
+
+
 def run():
     ctx = core.Ctx("X-extra", "quick", 20261002)
     rc = 0
     for name, fn in (("Config container API (ConfigOps.tla)", check_configops), ("utils.check_timestamps (TimeUtil.tla)", check_timestamps),
                      ("2-D inputs keep their shape (Trace_Qc, recall)", check_2d),
+                     ("climatology_test on observations without a time (NaT) (QcTests.MemberMatches)", check_clim_nat),
                      ("global ioos_qc_config attribute wins over per-variable attributes (Trace_Config)", check_global_attr_precedence),
                      ("flag metadata of the test functions, stream accessors (ApiMeta.tla)", check_api_meta),
                      ("utils.dict_update / dict_depth (DictOps.tla)", check_dictops),
                      ("ClimatologyConfig.values lookup (QcTests.ClimValues)", check_clim_values),
                      ("utils.mapdates on times with a UTC offset (TimeZones.tla)", check_time_zones)):
         owned, n = fn(ctx)
-        ctx.log("%s: %d events, %d rejected clauses" % (name, n, len(owned)))
-        for e, cl in owned[:6]:
+        known, fresh = {}, []
+        for e, cl in owned:
+            hit = None
+            for label, pred in KNOWN_GROWTH:
+                try:
+                    if pred(name, cl, e):
+                        hit = label
+                        break
+                except Exception:  # noqa: BLE001  a predicate that does not fit the event explains nothing
+                    pass
+            if hit:
+                known[hit] = known.get(hit, 0) + 1
+            else:
+                fresh.append((e, cl))
+        ctx.log("%s: %d events, %d rejected clauses (%d explained by known growth findings)" % (name, n, len(owned), len(owned) - len(fresh)))
+        for label, k in known.items():
+            print("GROWTH-FINDING: %s [%d rejected clause(s) this run]" % (label, k))
+        for e, cl in fresh[:6]:
             print("EXTRA-REJECT %s %s" % (cl, json.dumps({k: e[k] for k in e if k not in ("obs",)})[:300]), json.dumps(e.get("obs", {}))[:200])
-        rc = rc or (1 if owned else 0)
+        rc = rc or (1 if fresh else 0)
     return rc
